@@ -293,4 +293,186 @@ example : optimalWithin 0 2 2 (matOfRows [[1, 3/4], [3/4, 0]])
 example : (match selectMatches 2 2 (matOfRows [[1, 1], [1, 1]]) [(0, 0), (0, 1)] with
     | .error .key => true | _ => false) = true := by decide +kernel
 
+/-! ### review additions -/
+
+/-- weak duality: non-negative potentials with `aff i j ≤ u i + v j` bound every one-to-one
+    pairing (any size; no search) -/
+theorem C07_weak_duality (n m : Nat) (aff : Mat) (u v : Nat → Rat) (M : List (Nat × Nat))
+    (hf : dualFeasible n m aff u v = true) (hM : PartialInjection n m M) :
+    value aff M ≤ dualBound n m u v :=
+  weak_duality n m aff u v M hf hM
+
+/-- a certificate pins the optimum: the witness is a one-to-one pairing, nothing beats it, and
+    its value *is* the brute-force optimum -/
+theorem C07_cert_best (n m : Nat) (aff : Mat) (u v : Nat → Rat) (w : List (Nat × Nat))
+    (h : certOk n m aff u v w = true) :
+    PartialInjection n m w ∧ (∀ M, PartialInjection n m M → value aff M ≤ value aff w) ∧
+      bestValue n m aff = value aff w := by
+  simp only [certOk, Bool.and_eq_true, decide_eq_true_eq] at h
+  obtain ⟨⟨hf, hw⟩, hv⟩ := h
+  have hw' := (validAssignment_iff n m w).1 hw
+  have hall : ∀ M, PartialInjection n m M → value aff M ≤ value aff w := by
+    intro M hM; rw [hv]; exact weak_duality n m aff u v M hf hM
+  refine ⟨hw', hall, ?_⟩
+  obtain ⟨M, hM, hMv⟩ := bestValue_attained n m aff
+  have h1 := hall M hM
+  have h2 := bestValue_upper n m aff w hw'
+  grind
+
+/-- the certificate test is the brute-force test (whenever the certificate is accepted) -/
+theorem C07_optimal_cert_iff (tol : Rat) (n m : Nat) (aff : Mat) (u v : Nat → Rat)
+    (w : List (Nat × Nat)) (out : List Entry) (h : certOk n m aff u v w = true) :
+    optimalByCert tol n m aff u v w out = optimalWithin tol n m aff out := by
+  obtain ⟨_, _, hb⟩ := C07_cert_best n m aff u v w h
+  simp only [optimalByCert, optimalWithin, h, Bool.true_and, hb]
+
+/-- … hence it means optimality -/
+theorem C07_optimal_by_cert (tol : Rat) (n m : Nat) (aff : Mat) (u v : Nat → Rat)
+    (w : List (Nat × Nat)) (out : List Entry) (h : optimalByCert tol n m aff u v w out = true) :
+    ∀ M, PartialInjection n m M → value aff M ≤ total out + tol := by
+  have hc : certOk n m aff u v w = true := by
+    simp only [optimalByCert, Bool.and_eq_true] at h; exact h.1
+  rw [C07_optimal_cert_iff tol n m aff u v w out hc] at h
+  exact C07_optimal tol n m aff out h
+
+/-- `holds` = the shape clauses and the optimality test; with an accepted certificate the
+    factorial brute force can be replaced by the certificate test -/
+theorem C07_holds_by_cert (tol : Rat) (n m : Nat) (aff : Mat) (u v : Nat → Rat)
+    (w : List (Nat × Nat)) (out : List Entry) (h : certOk n m aff u v w = true) :
+    (holdsShape n m aff out && optimalByCert tol n m aff u v w out) = holds tol n m aff out := by
+  rw [C07_optimal_cert_iff tol n m aff u v w out h]
+  simp [holds, holdsShape, judge, Verdict.all]
+
+/-- for *every* valid assignment (optimal or not) the modelled code satisfies all clauses of
+    the property other than optimality -/
+theorem C07_shape_any_valid (n m : Nat) (aff : Mat) (assigned : List (Nat × Nat)) (out : List Entry)
+    (h : ValidAssignment n m assigned) (hout : selectMatches n m aff assigned = .ok out) :
+    holdsShape n m aff out = true := by
+  obtain ⟨hs, ht, _⟩ := C07_cover n m aff assigned out h hout
+  simp only [holdsShape, Bool.and_eq_true, List.isPerm_iff, List.all_eq_true]
+  refine ⟨⟨hs, ht⟩, ?_⟩
+  intro e he
+  have hp := C07_positive_pairs n m aff assigned out h hout e he
+  have hr := C07_reported_affinity n m aff assigned out h hout e he
+  have hu := C07_unpaired_zero n m aff assigned out h hout e he
+  have hn := (C07_cover n m aff assigned out h hout).2.2 e he
+  unfold entryOk
+  rcases hs' : e.src with _ | i <;> rcases ht' : e.tgt with _ | j
+  · simp_all
+  · simp [hu (Or.inl hs')]
+  · simp [hu (Or.inr ht')]
+  · simp [(hp i j hs' ht').1, hr i j hs' ht']
+
+/-- number of yielded triples: `n + m` minus the number of two-sided matches (each geometry is
+    mentioned once; a two-sided match mentions two) -/
+theorem C07_length (n m : Nat) (aff : Mat) (assigned : List (Nat × Nat)) (out : List Entry)
+    (h : ValidAssignment n m assigned) (hout : selectMatches n m aff assigned = .ok out) :
+    out.length + (out.filter (fun e => e.src.isSome && e.tgt.isSome)).length = n + m := by
+  obtain ⟨hs, ht, hne⟩ := C07_cover n m aff assigned out h hout
+  have h1 : (srcs out).length = n := by rw [hs.length_eq]; simp
+  have h2 : (tgts out).length = m := by rw [ht.length_eq]; simp
+  have key : ∀ l : List Entry, (∀ e ∈ l, e.src ≠ none ∨ e.tgt ≠ none) →
+      l.length + (l.filter (fun e => e.src.isSome && e.tgt.isSome)).length = (srcs l).length + (tgts l).length := by
+    intro l
+    induction l with
+    | nil => intro _; simp [srcs, tgts]
+    | cons e es ih =>
+      intro hl
+      have ih' := ih (fun x hx => hl x (List.mem_cons_of_mem _ hx))
+      have he := hl e (by simp)
+      simp only [srcs, tgts] at ih' ⊢
+      rcases hs' : e.src with _ | i <;> rcases ht' : e.tgt with _ | j <;>
+        simp_all <;> omega
+  rw [key out hne, h1, h2]
+
+/-- the canonical order used when outputs are compared is a permutation: nothing is lost -/
+theorem C07_sortEntries_perm (out : List Entry) : (sortEntries out).Perm out := by
+  have hins : ∀ (e : Entry) (l : List Entry), (insertEntry e l).Perm (e :: l) := by
+    intro e l
+    induction l with
+    | nil => simp [insertEntry]
+    | cons x xs ih =>
+      simp only [insertEntry]
+      split
+      · exact List.Perm.refl _
+      · exact ((List.Perm.cons x ih).trans (List.Perm.swap e x xs))
+  induction out with
+  | nil => simp [sortEntries]
+  | cons x xs ih => exact (hins x _).trans (List.Perm.cons x ih)
+
+/-! #### the matrix is the table of affinities of the geometries -/
+
+/-- `cost_matrix[i, j]` after the fill loop is `compute_affinity(source[i], target[j])` -/
+theorem C07_matrix_is_affinity {G : Type} (affinity : G → G → Rat) (src tgt : List G) (i j : Nat)
+    (hi : i < src.length) (hj : j < tgt.length) :
+    matOfRows (fillMatrix affinity src tgt) i j = affinity src[i] tgt[j] :=
+  fillMatrix_read affinity src tgt i j hi hj
+
+/-- total affinity of a pairing of geometries -/
+def geomValue {G : Type} (affinity : G → G → Rat) (src tgt : List G) (M : List (Nat × Nat)) : Rat :=
+  (M.map fun p => match src[p.1]?, tgt[p.2]? with
+    | some a, some b => affinity a b
+    | _, _ => 0).sum
+
+/-- the property on the geometries themselves: with `compute_affinity` any function and the
+    solver honouring its contract on the matrix it is given, `match_geometries` covers every
+    source and target index once, pairs `i` with `j` only if `affinity source[i] target[j] > 0`,
+    reports exactly that number, reports 0 for one-sided matches, and the sum of the reported
+    affinities is within `tol` of the best total over all one-to-one pairings of the geometries -/
+theorem C07_geometries {G : Type} (affinity : G → G → Rat) (solver : Nat → Nat → Mat → List (Nat × Nat))
+    (src tgt : List G) (out : List Entry) (tol : Rat)
+    (hvalid : ValidAssignment src.length tgt.length
+      (solver src.length tgt.length (matOfRows (fillMatrix affinity src tgt))))
+    (hopt : ∀ M, PartialInjection src.length tgt.length M →
+      value (matOfRows (fillMatrix affinity src tgt)) M ≤
+        value (matOfRows (fillMatrix affinity src tgt))
+          (solver src.length tgt.length (matOfRows (fillMatrix affinity src tgt))) + tol)
+    (hout : matchGeometries affinity solver src tgt = .ok out) :
+    (srcs out).Perm (List.range src.length) ∧ (tgts out).Perm (List.range tgt.length) ∧
+    (∀ e ∈ out, ∀ i j, e.src = some i → e.tgt = some j →
+      ∃ (hi : i < src.length) (hj : j < tgt.length),
+        0 < affinity src[i] tgt[j] ∧ e.aff = affinity src[i] tgt[j]) ∧
+    (∀ e ∈ out, (e.src = none ∨ e.tgt = none) → e.aff = 0) ∧
+    (∀ M, PartialInjection src.length tgt.length M → geomValue affinity src tgt M ≤ total out + tol) := by
+  unfold matchGeometries at hout
+  simp only at hout
+  obtain ⟨hs, ht, _⟩ := C07_cover _ _ _ _ out hvalid hout
+  refine ⟨hs, ht, ?_, C07_unpaired_zero _ _ _ _ out hvalid hout, ?_⟩
+  · intro e he i j hi hj
+    obtain ⟨hpos, hmem⟩ := C07_positive_pairs _ _ _ _ out hvalid hout e he i j hi hj
+    have hr := C07_reported_affinity _ _ _ _ out hvalid hout e he i j hi hj
+    have hi' := hvalid.rows_lt _ hmem
+    have hj' := hvalid.cols_lt _ hmem
+    rw [fillMatrix_read affinity src tgt i j hi' hj'] at hpos hr
+    exact ⟨hi', hj', hpos, hr⟩
+  · intro M hM
+    have h1 := C07_optimal_of_solver tol _ _ _ _ out hvalid hopt hout M hM
+    have h2 : geomValue affinity src tgt M = value (matOfRows (fillMatrix affinity src tgt)) M := by
+      unfold geomValue value
+      congr 1
+      apply List.map_congr_left
+      intro p hp
+      have hi' := hM.rows_lt p hp
+      have hj' := hM.cols_lt p hp
+      rw [fillMatrix_read affinity src tgt p.1 p.2 hi' hj']
+      simp [List.getElem?_eq_getElem hi', List.getElem?_eq_getElem hj']
+    rw [h2]; exact h1
+
+/-- non-vacuity: two intervals-as-numbers, affinity = 1 if equal else 0, identity solver -/
+example : (matchGeometries (fun (a b : Nat) => if a = b then (1 : Rat) else 0)
+    (fun _ _ _ => [(0, 0), (1, 1)]) [3, 5] [3, 7]).toOption
+    = some [⟨some 0, some 0, 1⟩, srcOnly 1, tgtOnly 1] := by decide +kernel
+example : fillMatrix (fun (a b : Nat) => (a : Rat) * 10 + b) [1, 2] [3, 4, 5] =
+    [[13, 14, 15], [23, 24, 25]] := by decide +kernel
+/-- certificates for `[[1, 3/4], [3/4, 0]]` (optimum 3/2 by the anti-diagonal): potentials whose sum is not
+    the witness's value are rejected, tight ones are accepted; the greedy output `(0,0)` alone is then refused -/
+example : certOk 2 2 (matOfRows [[1, 3/4], [3/4, 0]]) (vecOf [3/4, 0]) (vecOf [3/4, 3/4]) [(0, 1), (1, 0)]
+    = false := by decide +kernel
+example : certOk 2 2 (matOfRows [[1, 3/4], [3/4, 0]]) (vecOf [3/4, 1/2]) (vecOf [1/4, 0]) [(0, 1), (1, 0)]
+    = true := by decide +kernel
+example : optimalByCert 0 2 2 (matOfRows [[1, 3/4], [3/4, 0]]) (vecOf [3/4, 1/2]) (vecOf [1/4, 0])
+    [(0, 1), (1, 0)] [⟨some 0, some 0, 1⟩, srcOnly 1, tgtOnly 1] = false := by decide +kernel
+example : sortEntries [tgtOnly 1, srcOnly 0, ⟨some 1, some 0, 1/2⟩] =
+    [tgtOnly 1, srcOnly 0, ⟨some 1, some 0, 1/2⟩] := by decide +kernel
+
 end SE.Proofs.C07
